@@ -149,6 +149,8 @@ def Pre (s : St) : Op → Prop
   | .addPicture slide (some img) _ _ => slide ∈ ids s ∧ img ∈ ids s
   | .addPicture slide none new ext => slide ∈ ids s ∧ new ∉ ids s ∧ '/' ∉ ext ∧ '.' ∉ ext
   | .addChart slide chart xlsx => slide ∈ ids s ∧ chart ∉ ids s ∧ xlsx ∉ ids s ∧ chart ≠ xlsx
+  | .addOle slide ole _ _ (some img) _ _ => slide ∈ ids s ∧ ole ∉ ids s ∧ img ∈ ids s
+  | .addOle slide ole _ _ none ni ext => slide ∈ ids s ∧ ole ∉ ids s ∧ ni ∉ ids s ∧ ole ≠ ni ∧ '/' ∉ ext ∧ '.' ∉ ext
   | .addNotes _ slide (some m) _ _ nn => slide ∈ ids s ∧ m ∈ ids s ∧ nn ∉ ids s
   | .addNotes pres slide none nm nt nn =>
       pres ∈ ids s ∧ slide ∈ ids s ∧ pres ≠ slide ∧ nm ∉ ids s ∧ nt ∉ ids s ∧ nn ∉ ids s ∧ nm ≠ nt ∧ nm ≠ nn ∧ nt ≠ nn ∧
@@ -247,6 +249,73 @@ theorem notes_ne_theme (s : St) : nextName s notesPre xmlPost ≠ nextName s the
   rw [e, e']
   exact append_ne_of_take_ne _ _ _ _ 6 (by decide) (by decide) (by decide)
 
+/-- what `predictPic` needs: the slide is a part; a part said to hold the bytes is a part; a new image part is new and its
+    extension is one -/
+def PrePic (s : St) (slide : Nat) (existing : Option Nat) (new : Nat) (ext : Str) : Prop :=
+  slide ∈ ids s ∧ (∀ img, existing = some img → img ∈ ids s) ∧ (existing = none → new ∉ ids s ∧ '/' ∉ ext ∧ '.' ∉ ext)
+
+theorem predictPic_runs (s : St) (hi : C02.Inv s) (slide : Nat) (existing : Option Nat) (new : Nat) (ext : Str)
+    (pre : PrePic s slide existing new ext) : ∃ s', runD s (predictPic s slide existing new ext) 0 = .ok s' := by
+  have hn := hi.ids_nodup
+  obtain ⟨hs, hex, hnone⟩ := pre
+  cases existing with
+  | some img =>
+    have himg := hex img rfl
+    unfold predictPic
+    cases hm : matching s slide img with
+    | some k =>
+      simp only [hm]
+      have w : wf s (.addRef slide k) = true := by
+        apply wf_addRef s slide k hs
+        intro q hq e
+        unfold matching at hm
+        rw [← e, partOf_eq s hn q hq] at hm
+        simp only [Option.bind_some, Option.map_eq_some_iff] at hm
+        obtain ⟨a, ha, rfl⟩ := hm
+        exact List.mem_map.2 ⟨a, List.mem_of_find?_eq_some ha, rfl⟩
+      rw [runD_cons _ _ _ _ w]; exact ⟨_, rfl⟩
+    | none =>
+      simp only [hm]
+      rw [relate_then_ref s s hn slide img [] 0 hs himg (fun q hq _ => hq)]
+      exact ⟨_, rfl⟩
+  | none =>
+    obtain ⟨hnew, he, hd⟩ := hnone rfl
+    have hne : slide ≠ new := fun e => hnew (e ▸ hs)
+    unfold predictPic
+    simp only []
+    rw [runD_cons _ _ _ _ (wf_addPart s new _ hnew (imageName_fresh s ext he hd))]
+    rw [relate_then_ref s _ hn slide new [] 1]
+    · exact ⟨_, rfl⟩
+    · rw [ids_addPart]; simp [hs]
+    · rw [ids_addPart]; simp
+    · intro q hq e
+      rcases (mem_addPart s new _ q).1 hq with h | h
+      · exact h
+      · rw [h] at e; exact absurd e.symm hne
+
+/-- the position counter of `runD` only labels the failing delta -/
+theorem runD_shift (s s' : St) (ds : List Delta) (k k' : Nat) (h : runD s ds k = .ok s') : runD s ds k' = .ok s' := by
+  induction ds generalizing s k k' with
+  | nil => simpa [runD] using h
+  | cons d ds ih =>
+    simp only [runD] at h ⊢
+    split at h
+    · rename_i hw; simp only [hw, if_true]; exact ih _ _ _ h
+    · cases h
+
+theorem runD_append (s s1 : St) (a b : List Delta) (k : Nat) (h : runD s a k = .ok s1) :
+    runD s (a ++ b) k = runD s1 b (k + a.length) := by
+  induction a generalizing s k with
+  | nil => simp only [runD] at h; cases h; simp
+  | cons d a ih =>
+    simp only [runD, List.cons_append] at h ⊢
+    split at h
+    · rename_i hw
+      simp only [hw, if_true]
+      rw [ih _ _ h]
+      simp only [List.length_cons]; congr 1; omega
+    · cases h
+
 theorem predict_runs (s : St) (op : Op) (hi : C02.Inv s) (pre : Pre s op) : ∃ s', runD s (predict s op) 0 = .ok s' := by
   have hn := hi.ids_nodup
   cases op with
@@ -276,40 +345,16 @@ theorem predict_runs (s : St) (op : Op) (hi : C02.Inv s) (pre : Pre s op) : ∃ 
         · rw [h] at e; exact absurd e.symm hne
       · exact absurd (e.symm.trans hpid) hne
   | addPicture slide existing new ext =>
+    show ∃ s', runD s (predictPic s slide existing new ext) 0 = .ok s'
     cases existing with
     | some img =>
-      obtain ⟨hs, himg⟩ := pre
-      unfold predict
-      cases hm : matching s slide img with
-      | some k =>
-        simp only [hm]
-        have w : wf s (.addRef slide k) = true := by
-          apply wf_addRef s slide k hs
-          intro q hq e
-          unfold matching at hm
-          rw [← e, partOf_eq s hn q hq] at hm
-          simp only [Option.bind_some, Option.map_eq_some_iff] at hm
-          obtain ⟨a, ha, rfl⟩ := hm
-          exact List.mem_map.2 ⟨a, List.mem_of_find?_eq_some ha, rfl⟩
-        rw [runD_cons _ _ _ _ w]; exact ⟨_, rfl⟩
-      | none =>
-        simp only [hm]
-        rw [relate_then_ref s s hn slide img [] 0 hs himg (fun q hq _ => hq)]
-        exact ⟨_, rfl⟩
+      refine predictPic_runs s hi slide (some img) new ext ⟨pre.1, ?_, ?_⟩
+      · intro i h; cases h; exact pre.2
+      · intro h; cases h
     | none =>
-      obtain ⟨hs, hnew, he, hd⟩ := pre
-      have hne : slide ≠ new := fun e => hnew (e ▸ hs)
-      unfold predict
-      simp only []
-      rw [runD_cons _ _ _ _ (wf_addPart s new _ hnew (imageName_fresh s ext he hd))]
-      rw [relate_then_ref s _ hn slide new [] 1]
-      · exact ⟨_, rfl⟩
-      · rw [ids_addPart]; simp [hs]
-      · rw [ids_addPart]; simp
-      · intro q hq e
-        rcases (mem_addPart s new _ q).1 hq with h | h
-        · exact h
-        · rw [h] at e; exact absurd e.symm hne
+      refine predictPic_runs s hi slide none new ext ⟨pre.1, ?_, ?_⟩
+      · intro i h; cases h
+      · intro _; exact ⟨pre.2.1, pre.2.2.1, pre.2.2.2⟩
   | addChart slide chart xlsx =>
     obtain ⟨hs, hc, hx, hcx⟩ := pre
     have hne : slide ≠ chart := fun e => hc (e ▸ hs)
@@ -444,6 +489,36 @@ theorem predict_runs (s : St) (op : Op) (hi : C02.Inv s) (pre : Pre s op) : ∃ 
           (fresh_addPart _ _ _ _ _ (fresh_addPart _ _ _ _ _ (fresh_old slide hs)))
           (fun e => absurd e.symm f1)) (fun e => absurd e hps))) (fun e => absurd e.symm f3)) (fun e => absurd e.symm f3)))]
       exact ⟨_, rfl⟩
+
+  | addOle slide ole pre' post existing ni ext =>
+    have hs : slide ∈ ids s := by cases existing <;> exact pre.1
+    have hole : ole ∉ ids s := by cases existing <;> exact pre.2.1
+    have hne : slide ≠ ole := fun e => hole (e ▸ hs)
+    -- the embedded part, its relationship, the reference to it
+    have h1 : ∃ s1, runD s [.addPart ole (nextName s pre' post), .addRel slide (nextRId s slide) (.int ole),
+        .addRef slide (nextRId s slide)] 0 = .ok s1 ∧ ids s1 = ids s ++ [ole] := by
+      rw [runD_cons _ _ _ _ (wf_addPart s ole _ hole (nextName_fresh s _ _))]
+      rw [relate_then_ref s _ hn slide ole [] 1]
+      · exact ⟨_, rfl, by rw [ids_addRef, ids_addRel, ids_addPart]⟩
+      · rw [ids_addPart]; simp [hs]
+      · rw [ids_addPart]; simp
+      · intro q hq e
+        rcases (mem_addPart s ole _ q).1 hq with h | h
+        · exact h
+        · rw [h] at e; exact absurd e.symm hne
+    obtain ⟨s1, hr1, hids⟩ := h1
+    have hi1 : C02.Inv s1 := C02.run_inv _ s s1 0 hi hr1
+    have hpic : PrePic s1 slide existing ni ext := by
+      refine ⟨by rw [hids]; simp [hs], ?_, ?_⟩
+      · intro img e; subst e; rw [hids]; simp [pre.2.2]
+      · intro e; subst e
+        obtain ⟨_, _, hni, hon, he, hd⟩ := pre
+        exact ⟨by rw [hids]; simp [hni, Ne.symm hon], he, hd⟩
+    obtain ⟨s2, hr2⟩ := predictPic_runs s1 hi1 slide existing ni ext hpic
+    show ∃ s', runD s (predict s (.addOle slide ole pre' post existing ni ext)) 0 = .ok s'
+    simp only [predict, hr1]
+    rw [runD_append s s1 _ _ 0 hr1]
+    exact ⟨s2, runD_shift _ _ _ _ _ hr2⟩
 
 /-- the one precondition of `addNotes` that is not discharged from the code: `create_default` does not search for a free
     name.  With a notes master in the package that the presentation part is NOT related to (a notes slide relates it; other
